@@ -140,6 +140,14 @@ func (c *objectFloat64SymbolComparator[T]) compare(a, b T) int {
 		}
 	} else if s2 == nil {
 		result = 1
+	} else if *s1 != *s1 || *s2 != *s2 {
+		// NaN compares false with everything: order it before every number (and equal to NaN), so that
+		// the comparison stays a total order and the result does not depend on the insertion order
+		if *s1 == *s1 {
+			result = 1
+		} else if *s2 == *s2 {
+			result = -1
+		}
 	} else if *s1 < *s2 {
 		result = -1
 	} else if *s1 > *s2 {
